@@ -20,6 +20,8 @@ func main() {
 			os.Exit(2)
 		}
 		extract(os.Args[2], os.Args[3])
+	case "worker": // executes scripts for the runner (see worker.go)
+		workerMain()
 	case "stress": // child process of a `stress …` script line
 		stressMain(os.Args[2:])
 	case "canon": // print the canonical bodies of the pinned functions (to refresh the expectations in extract.go)
